@@ -392,6 +392,20 @@ def _sync_tags(beh):
             t.add("%s>%s:%s" % (beh[i - 1]["a"], a["a"], "same" if beh[i - 1]["i"] == a["i"] else "other"))
     t.add("len%d" % len(beh))
     t.add("commits%d" % sum(1 for a in beh if a["a"] == "Commit"))
+    # the code path each push / fetch takes (computed by the specification: PushKind / FetchKind), and whether the
+    # behaviour ends quiescent (every clone has pushed and then fetched since the last commit) - the convergence
+    # clause is only decided there, so "this path, in a behaviour that ends quiescent" is a tag of its own
+    lastc = max([k for k, a in enumerate(beh) if a["a"] == "Commit"] or [-1])
+    clones = {a["i"] for a in beh}
+    quiescent = True
+    for c in clones:
+        ps = [k for k, a in enumerate(beh) if k > lastc and a["a"] == "Push" and a["i"] == c]
+        quiescent = quiescent and bool(ps) and any(a["a"] == "Fetch" and a["i"] == c for a in beh[ps[-1] + 1:])
+    for a in beh:
+        if a.get("k"):
+            t.add("%s:%s" % (a["a"], a["k"]))
+            if quiescent and len(clones) > 1:
+                t.add("Q+%s:%s" % (a["a"], a["k"]))
     return frozenset(t)
 
 
@@ -406,14 +420,14 @@ PLANS["C10"] = {
     "module": "NotesSync.tla", "const_keys": ["Clone", "MaxCommit", "MaxSteps", "Mode"],
     "executor": _sync.execute_sync, "tagger": _sync_tags, "end_event": {"ev": "reset", "run": "end"},
     "quick": [
-        dict(name="two", consts=sync_consts(("a", "b"), 3, 8), invariants=["C10_Converged"], budget=150,
-             variants=[("-", "-")], per_tag=1),
+        dict(name="two", consts=sync_consts(("a", "b"), 3, 10), invariants=["C10_Converged"], budget=260,
+             variants=[("-", "-")], per_tag=3),
     ],
     "thorough": [
-        dict(name="two", consts=sync_consts(("a", "b"), 4, 10), invariants=["C10_Converged"], budget=700,
-             variants=[("-", "-")], per_tag=1, timeout=2400),
-        dict(name="three", consts=sync_consts(("a", "b", "c"), 3, 8), invariants=["C10_Converged"], budget=500,
-             variants=[("-", "-")], per_tag=1, timeout=2400),
+        dict(name="two", consts=sync_consts(("a", "b"), 4, 12), invariants=["C10_Converged"], budget=900,
+             variants=[("-", "-")], per_tag=3, timeout=2400),
+        dict(name="three", consts=sync_consts(("a", "b", "c"), 3, 9), invariants=["C10_Converged"], budget=700,
+             variants=[("-", "-")], per_tag=3, timeout=2400),
     ],
 }
 
